@@ -688,7 +688,18 @@ class Evaluator:
             if self.ev(e[1], ctx, env) > e[2]:
                 return self.ev(e[3], ctx, env)
             return self.ev(e[4], ctx, env)
-        if k in ("sum", "lst"):
+        if k == "lst":
+            # sum([body for v in range(k)]): the list is built completely before anything is added up
+            vals = []
+            for i in range(e[2]):
+                env2 = dict(env)
+                env2[e[1]] = i
+                vals.append(self.ev(e[3], ctx, env2))
+            tot = 0
+            for v in vals:
+                tot = tot + v
+            return tot
+        if k == "sum":
             tot = 0
             for i in range(e[2]):
                 env2 = dict(env)
